@@ -28,6 +28,15 @@ pub struct ShortCircuit {
     pub gas_left_frac: u16,
 }
 
+/// F3c: the inspector rewrites the inputs inside its call / create / eofcreate hook (they are
+/// handed over as `&mut` for that): the gas limit of the frame with index `hook_no` (never
+/// the transaction's own frame) is lowered to `gas_frac`/256 of what the parent forwarded.
+#[derive(Clone, Debug, Default, Serialize, Deserialize, PartialEq)]
+pub struct InputTweak {
+    pub hook_no: u64,
+    pub gas_frac: u16,
+}
+
 /// F3b: the inspector ends the running frame itself by setting the instruction result in
 /// `step_end` (documented as allowed) after the `at_step`-th instruction of the transaction,
 /// if that instruction completed normally.
@@ -257,6 +266,7 @@ pub struct Monitor {
     pub ctx: TxCtx,
     pub short_circuits: Vec<ShortCircuit>,
     pub force_halt: Option<ForceHalt>,
+    pub input_tweak: Option<InputTweak>,
     tx_steps: u64,
     pub check_frame_snapshots: bool,
     pub check_access: bool,
@@ -318,6 +328,20 @@ impl Monitor {
         self.ctx.spec.unwrap_or(SpecId::LATEST)
     }
 
+    /// F3c: the gas limit the hook leaves in the inputs of the frame that is about to begin
+    fn tweaked_gas(&mut self, gas_limit: u64) -> u64 {
+        match &self.input_tweak {
+            Some(t) if t.hook_no == self.hook_no && self.hook_no > 0 => {
+                let g = (gas_limit as u128 * t.gas_frac.min(256) as u128 / 256) as u64;
+                if g != gas_limit {
+                    self.inc("fault.F3_inputs_rewritten_in_hook");
+                }
+                g
+            }
+            _ => gas_limit,
+        }
+    }
+
     /// Called by the harness before every transaction.
     pub fn begin_tx(&mut self, ctx: TxCtx, short_circuits: Vec<ShortCircuit>) {
         if !self.frames.is_empty() || self.pending.is_some() {
@@ -330,6 +354,7 @@ impl Monitor {
         self.hook_no = 0;
         self.short_circuits = short_circuits;
         self.force_halt = None;
+        self.input_tweak = None;
         self.tx_steps = 0;
         self.top_delegate_checked = false;
         self.top_gas = None;
@@ -932,6 +957,7 @@ impl<DB: Database> Inspector<DB> for Monitor {
     }
 
     fn call(&mut self, context: &mut EvmContext<DB>, inputs: &mut CallInputs) -> Option<CallOutcome> {
+        inputs.gas_limit = self.tweaked_gas(inputs.gas_limit);
         let sc = self.frame_begin(context, FrameInputs::Call(inputs.clone()));
         sc.map(|s| CallOutcome::new(Monitor::sc_result(&s, inputs.gas_limit), inputs.return_memory_offset.clone()))
     }
@@ -942,6 +968,7 @@ impl<DB: Database> Inspector<DB> for Monitor {
     }
 
     fn create(&mut self, context: &mut EvmContext<DB>, inputs: &mut CreateInputs) -> Option<CreateOutcome> {
+        inputs.gas_limit = self.tweaked_gas(inputs.gas_limit);
         let sc = self.frame_begin(context, FrameInputs::Create(inputs.clone()));
         sc.map(|s| {
             let r = Monitor::sc_result(&s, inputs.gas_limit);
@@ -956,6 +983,7 @@ impl<DB: Database> Inspector<DB> for Monitor {
     }
 
     fn eofcreate(&mut self, context: &mut EvmContext<DB>, inputs: &mut EOFCreateInputs) -> Option<CreateOutcome> {
+        inputs.gas_limit = self.tweaked_gas(inputs.gas_limit);
         let sc = self.frame_begin(context, FrameInputs::EofCreate(inputs.clone()));
         sc.map(|s| {
             let mut r = Monitor::sc_result(&s, inputs.gas_limit);
